@@ -78,7 +78,7 @@ def drive(libdir, mode, params, timeout, attempts=3):
                 res["_retries"] = diags
             return res, ""
         diags.append(diag[-300:])
-        if kind == "signal":
+        if kind == "signal" or (kind == "timeout" and i >= 1):
             break
     return None, " | ".join(diags)
 
@@ -214,6 +214,22 @@ def run(ctx):
         po.update({"tmax": tm, "sleep_ms": sl, "calls": ctx.rng.choice([1, 2]), "hb_two_writes": False,
                    "continue": 0 if oname in ("bs+ode",) else 3})
         jobs.append(("server-opt:" + oname, libdir, "server", po, 240))
+    # request-shape edges (zero-length / unannounced / negative-length uploads, unknown paths and methods, over-long lines, empty
+    # requests, connect-and-close ...) fired continuously next to the /simulation clients, over several integrate() calls so that the
+    # first and the last step of a call are hit too
+    for integ in (["leapfrog", "whfast"] if not ctx.thorough else ["leapfrog", "whfast", "ias15", "mercurius"]):
+        pe = server_params(ctx, integ)
+        pe.update({"other_requests": 2, "calls": 3, "continue": 3})
+        jobs.append(("server-edges:" + integ, libdir, "server", pe, 240))
+    # degenerate simulations behind the server
+    for cn in (["empty", "star_only", "nan"] if not ctx.thorough else ["empty", "star_only", "one_planet", "zero_mass", "nan", "inf", "huge", "subnormal", "coincident"]):
+        pcn = server_params(ctx, ctx.rng.choice(["leapfrog", "whfast", "ias15"]))
+        pcn["spec"].update({"corner": cn, "n": {"star_only": 0, "one_planet": 1}.get(cn, pcn["spec"]["n"])})
+        pcn.update({"tmax": 0.5 if pcn["spec"]["integrator"] != "ias15" else 2.0, "sleep_ms": 2.0, "hb_two_writes": False, "continue": 2})
+        jobs.append(("server-corner:" + cn, libdir, "server", pcn, 240))
+    # a client that goes away before the end of its request headers
+    jobs.append(("incomplete-request", libdir, "incomplete", {"seed": ctx.rng.randint(1, 10 ** 6), "spec": {"integrator": "leapfrog", "n": 2, "seed": 5, "dt": 0.01},
+                 "tmax": 0.3, "requests": ["GET /simulation HTTP/1.0\r\n", "GET /simulation", "GET /simulation HTTP/1.0\r\nHost: x\r\n", "POST /screenshot HTTP/1.0\r\nContent-Length: 3\r\n"]}, 120))
     pt = {"seed": ctx.rng.randint(1, 10 ** 6), "N": ctx.scale(12000, 20000), "clients": 2, "seconds": ctx.scale(2, 12)}
     jobs.append(("torn:eft0", libdir, "torn", dict(pt, eft=0), 400))      # synchronize after the loop (inside the mutex since /repo 8c50374)
     jobs.append(("torn:eft1", libdir, "torn", dict(pt, eft=1, seed=pt["seed"] + 7), 400))   # synchronize inside reb_check_exit (inside the mutex since /repo 8306d1e)
@@ -373,6 +389,17 @@ def run(ctx):
                 m = res["mismatch"][0]
                 ctx.violation("concurrent:" + m["spec"]["integrator"], dict(replay, first_mismatch=m), True,
                               "simulation run concurrently with others ends in different bits than when run alone")
+        elif mode == "incomplete":
+            ctx.evaluations += len(res["steps"])
+            ctx.case(key=("incomplete-request", res["serves_before"]))
+            ctx.extra["incomplete_request"] = res
+            bad = [st for st in res["steps"] if not st["serves_after"]] 
+            ctx.obligation("validation: the scenario itself works (server serves before the incomplete requests; integration unaffected)",
+                           res["serves_before"] and res["integration_ok"], json.dumps(res)[:500])
+            if bad or not res["stop_server_returns"]:
+                ctx.violation("server:incomplete-request-hangs-server", dict(replay, result=res), True,
+                              "after a client that disconnects before the end of its request headers the server thread spins forever: no further "
+                              "snapshot is served and reb_simulation_stop_server / free never return")
         elif mode == "latestart":
             ctx.evaluations += res["served"]
             served_total += res["served"]
